@@ -197,7 +197,11 @@ func init() {
 	Register(&Check{
 		ID: "C01",
 		Gen: func(r *sim.Rng, tier string) json.RawMessage {
-			return mustJSON(GenRelayPlan(r, relayProfileC01(tier)))
+			pl := GenRelayPlan(r, relayProfileC01(tier))
+			if r.Bool(0.25) {
+				pl.Conf.PushAddrs = []string{"10.8.8.1:1935"} // a relay-push target (stub RTMP server) receives every stream
+			}
+			return mustJSON(pl)
 		},
 		Sched: relaySched,
 		Run: func(k *sim.Kernel, plan json.RawMessage) {
